@@ -217,6 +217,126 @@ func (g *GateDB) Waiting() int { return int(atomic.LoadInt32(&g.waiting)) }
 func (g *GateDB) RemoveCount() int64 { return atomic.LoadInt64(&g.Removes) }
 
 // ---------------------------------------------------------------------------------------
+// checkpoint hashes holder decorator: pre-loading (a long-lived node's holder) and an arranged overlap of the
+// snapshot request's RemoveCommitted with the AddDirtyCheckpointHashes of the next block's Commit
+
+// HolderDeco wraps the real checkpointHashesHolder the harness hands to the trie storage manager. Unarmed it only
+// forwards and counts.
+type HolderDeco struct {
+	Inner data.CheckpointHashesHolder
+
+	mu          sync.Mutex
+	armed       int32 // 1 = the next RemoveCommitted and the next Put take part in the arranged overlap
+	rcClaimed   int32
+	putClaimed  int32
+	putPending  chan struct{}
+	scanStarted int32
+
+	inRemoveCommitted   int32
+	Puts                int64
+	RemoveCommitteds    int64
+	PutsDuringRC        int64 // Put calls that arrived while a RemoveCommitted call was in progress
+	OverlapsArranged    int64
+	OverlapWaitTimeouts int64
+	Preloaded           int64
+}
+
+// fillerRoot is the "root hash" of the pre-loaded entries: never the hash of a trie node
+var fillerRoot = bytes.Repeat([]byte{0xEE}, 32)
+
+// Preload appends n entries with an empty set of modified hashes. This is what the holder of a node looks like that
+// has been committing blocks and taking checkpoints for a long time since its last snapshot: a checkpoint erases the
+// hashes it saved from the entries (Remove), the entries themselves stay until the next RemoveCommitted. Empty
+// entries never make ShouldCommit true, so they do not change which nodes a checkpoint saves.
+func (h *HolderDeco) Preload(n int) {
+	empty := data.ModifiedHashes{}
+	for i := 0; i < n; i++ {
+		h.Inner.Put(fillerRoot, empty)
+	}
+	atomic.AddInt64(&h.Preloaded, int64(n))
+}
+
+// ArmOverlap arranges that the next RemoveCommitted call (the snapshot goroutine's TakeSnapshot) starts only when the
+// next Put (the end of the next block's AccountsDB.Commit) is about to be made, and that this Put is made right after
+// the RemoveCommitted call was started: the two run concurrently, as they do on a node whenever the goroutine
+// spawned by SnapshotState is scheduled while the next block is committed. Neither wait is made while the code under
+// test holds a lock the other side needs; both waits are bounded (the bound never decides a verdict).
+func (h *HolderDeco) ArmOverlap() {
+	h.mu.Lock()
+	h.putPending = make(chan struct{})
+	h.mu.Unlock()
+	atomic.StoreInt32(&h.scanStarted, 0)
+	atomic.StoreInt32(&h.rcClaimed, 0)
+	atomic.StoreInt32(&h.putClaimed, 0)
+	atomic.StoreInt32(&h.armed, 1)
+}
+
+// Disarm ends the arrangement (calls in flight are released by their own bounds)
+func (h *HolderDeco) Disarm() { atomic.StoreInt32(&h.armed, 0) }
+
+func (h *HolderDeco) chans() (chan struct{}, chan struct{}) {
+	h.mu.Lock()
+	defer h.mu.Unlock()
+	return h.putPending, nil
+}
+
+// Put implements data.CheckpointHashesHolder
+func (h *HolderDeco) Put(rootHash []byte, hashes data.ModifiedHashes) bool {
+	atomic.AddInt64(&h.Puts, 1)
+	if atomic.LoadInt32(&h.armed) == 1 && atomic.CompareAndSwapInt32(&h.putClaimed, 0, 1) {
+		pp, _ := h.chans()
+		close(pp)
+		// yield until the RemoveCommitted call has been started (no blocking wait: the reaction must be quick)
+		deadline := time.Now().Add(5 * time.Second)
+		for i := 0; ; i++ {
+			if atomic.LoadInt32(&h.scanStarted) == 1 {
+				atomic.AddInt64(&h.OverlapsArranged, 1)
+				break
+			}
+			runtime.Gosched()
+			if i%1024 == 1023 && time.Now().After(deadline) {
+				atomic.AddInt64(&h.OverlapWaitTimeouts, 1)
+				break
+			}
+		}
+	}
+	if atomic.LoadInt32(&h.inRemoveCommitted) > 0 {
+		atomic.AddInt64(&h.PutsDuringRC, 1)
+	}
+	return h.Inner.Put(rootHash, hashes)
+}
+
+// RemoveCommitted implements data.CheckpointHashesHolder
+func (h *HolderDeco) RemoveCommitted(lastCommittedRootHash []byte) {
+	atomic.AddInt64(&h.RemoveCommitteds, 1)
+	if atomic.LoadInt32(&h.armed) == 1 && atomic.CompareAndSwapInt32(&h.rcClaimed, 0, 1) {
+		pp, _ := h.chans()
+		select {
+		case <-pp:
+		case <-time.After(5 * time.Second):
+			atomic.AddInt64(&h.OverlapWaitTimeouts, 1)
+		}
+		atomic.AddInt32(&h.inRemoveCommitted, 1)
+		atomic.StoreInt32(&h.scanStarted, 1)
+		h.Inner.RemoveCommitted(lastCommittedRootHash)
+		atomic.AddInt32(&h.inRemoveCommitted, -1)
+		return
+	}
+	atomic.AddInt32(&h.inRemoveCommitted, 1)
+	h.Inner.RemoveCommitted(lastCommittedRootHash)
+	atomic.AddInt32(&h.inRemoveCommitted, -1)
+}
+
+// Remove implements data.CheckpointHashesHolder
+func (h *HolderDeco) Remove(hash []byte) { h.Inner.Remove(hash) }
+
+// ShouldCommit implements data.CheckpointHashesHolder
+func (h *HolderDeco) ShouldCommit(hash []byte) bool { return h.Inner.ShouldCommit(hash) }
+
+// IsInterfaceNil implements data.CheckpointHashesHolder
+func (h *HolderDeco) IsInterfaceNil() bool { return h == nil }
+
+// ---------------------------------------------------------------------------------------
 // accounts adapter decorator: records the pruning / snapshot requests the real schedule issues
 
 // RecAccounts forwards everything to the real AccountsDB and reports pruning-related calls
@@ -273,6 +393,7 @@ type Processor interface {
 	VerifUpdateUserStateStorage(finalHeader data.HeaderHandler, rootHash []byte, prevRootHash []byte)
 	PruneStateOnRollback(currHeader data.HeaderHandler, prevHeader data.HeaderHandler)
 	RevertStateToBlock(header data.HeaderHandler) error
+	RevertAccountState(header data.HeaderHandler)
 }
 
 // EnvConfig selects the sizes of the real components
@@ -288,17 +409,18 @@ type EnvConfig struct {
 
 // Env holds the real components
 type Env struct {
-	Cfg  EnvConfig
-	Gate *GateDB
-	Tsm  data.StorageManager
-	Adb  *state.AccountsDB
-	Rec  *RecAccounts
-	SP   Processor
+	Cfg    EnvConfig
+	Gate   *GateDB
+	Holder *HolderDeco
+	Tsm    data.StorageManager
+	Adb    *state.AccountsDB
+	Rec    *RecAccounts
+	SP     Processor
 }
 
 // NewEnv assembles the real components
 func NewEnv(cfg EnvConfig) (*Env, error) {
-	e := &Env{Cfg: cfg, Gate: NewGateDB()}
+	e := &Env{Cfg: cfg, Gate: NewGateDB(), Holder: &HolderDeco{Inner: hashesHolder.NewCheckpointHashesHolder(1<<40, 32)}}
 	if cfg.SnapshotDB.Type == "" {
 		cfg.SnapshotDB = config.DBConfig{FilePath: "/nonexistent/verif-snap", Type: "MemoryDB"}
 	}
@@ -306,7 +428,7 @@ func NewEnv(cfg EnvConfig) (*Env, error) {
 		DB: e.Gate, Marshalizer: Msh, Hasher: Hsh,
 		SnapshotDbConfig:       cfg.SnapshotDB,
 		GeneralConfig:          config.TrieStorageManagerConfig{PruningBufferLen: cfg.PruningBufferLen, SnapshotsBufferLen: 10000, MaxSnapshots: cfg.MaxSnapshots},
-		CheckpointHashesHolder: hashesHolder.NewCheckpointHashesHolder(1<<40, 32),
+		CheckpointHashesHolder: e.Holder,
 	})
 	if err != nil {
 		return nil, err
@@ -610,6 +732,39 @@ func (w *World) writeSlot(addr []byte, m *Acct, k, v string) error {
 // extra mutation may put a storage slot back to the value it has in that older block, so that node hashes of
 // older states are re-created by newer blocks (node-level revisits).
 func (w *World) Commit(rng *vk.Rand, initial bool, restore *Block) (*Block, error) {
+	d, err := w.mutate(rng, initial, restore)
+	if err != nil {
+		return nil, err
+	}
+	root, err := w.Env.Adb.Commit()
+	if err != nil {
+		return nil, err
+	}
+	b := &Block{Height: w.height, Root: cp(root), Accts: d.nb, Desc: strings.Join(d.desc, "; "), LeakShape: d.leakShape, RemovedDirty: d.removedDirty, Script: d.script}
+	if d.leakShape {
+		w.Counts["blocks_with_storage_change+remove+recreate"]++
+	}
+	b.Hdr = &block.Header{Nonce: w.height, Round: w.height, RootHash: cp(root)}
+	w.height = b.Height + 1
+	w.Chain = append(w.Chain, b)
+	w.cur = d.nb
+	w.Counts["commit"]++
+	return b, nil
+}
+
+// draft is the outcome of applying the operations of a would-be block to the real accounts DB (nothing committed yet)
+type draft struct {
+	nb           map[string]*Acct
+	desc         []string
+	script       []Prim
+	leakShape    bool
+	removedDirty bool
+	storTouched  map[string]bool // accounts that had a storage write (SaveKeyValue + SaveAccount)
+}
+
+// mutate applies the random account operations of one would-be block on top of the head (see Commit) without
+// committing them; the model of the resulting state is returned, w.cur is left alone
+func (w *World) mutate(rng *vk.Rand, initial bool, restore *Block) (*draft, error) {
 	if w.keys == nil {
 		w.initKeys(rng)
 	}
@@ -808,23 +963,57 @@ func (w *World) Commit(rng *vk.Rand, initial bool, restore *Block) (*Block, erro
 			w.Counts["slot_restore_old_value"]++
 		}
 	}
-	root, err := adb.Commit()
-	if err != nil {
-		return nil, err
-	}
 	if script == nil {
 		script = []Prim{}
 	}
-	b := &Block{Height: w.height, Root: cp(root), Accts: nb, Desc: strings.Join(desc, "; "), LeakShape: leakShape, RemovedDirty: removedDirtyAny, Script: script}
-	if leakShape {
-		w.Counts["blocks_with_storage_change+remove+recreate"]++
+	return &draft{nb: nb, desc: desc, script: script, leakShape: leakShape, removedDirty: removedDirtyAny, storTouched: storTouched}, nil
+}
+
+// Attempt describes a block attempt that failed and was reverted as a whole
+type Attempt struct {
+	Desc        string
+	StorTouched int   // accounts whose storage was written by the failed attempt
+	TouchedLive int   // ... that exist, with storage, in the committed head state (their committed data trie was loaded and changed)
+	LiveAddrs   []int // indexes (into Addrs) of those accounts
+}
+
+// FailedAttempt processes a part of a would-be block on top of the head - the same kind of account operations Commit
+// applies (balance, code, storage writes via SaveKeyValue+SaveAccount, removals, in-block flip-flops) - and then
+// gives the block up the way the block processor does when ProcessBlock fails: RevertAccountState, which is
+// AccountsDB.RevertToSnapshot(0). Nothing is committed and the chain is unchanged: the accounts state must be the
+// head's state again (the caller carries on with any other operation, typically a different block).
+func (w *World) FailedAttempt(rng *vk.Rand, restore *Block) (*Attempt, error) {
+	if len(w.Chain) == 0 {
+		return nil, fmt.Errorf("no head to revert to")
 	}
-	b.Hdr = &block.Header{Nonce: w.height, Round: w.height, RootHash: cp(root)}
-	w.height = b.Height + 1
-	w.Chain = append(w.Chain, b)
-	w.cur = nb
-	w.Counts["commit"]++
-	return b, nil
+	head := w.Head()
+	saved := w.Counts
+	w.Counts = map[string]int{}
+	d, err := w.mutate(rng, false, restore)
+	for k, v := range w.Counts {
+		saved["reverted_attempt_"+k] += v
+	}
+	w.Counts = saved
+	if err != nil {
+		return nil, err
+	}
+	w.Env.SP.RevertAccountState(head.Hdr)
+	root, err := w.Env.Adb.RootHash()
+	if err != nil {
+		return nil, fmt.Errorf("root hash after the revert: %v", err)
+	}
+	if !bytes.Equal(root, head.Root) {
+		return nil, fmt.Errorf("after RevertToSnapshot(0) the accounts root is %x, the head's root is %x", root[:4], head.Root[:4])
+	}
+	at := &Attempt{Desc: strings.Join(d.desc, "; "), StorTouched: len(d.storTouched)}
+	for i, a := range Addrs {
+		if m := w.cur[string(a)]; d.storTouched[string(a)] && m != nil && len(m.Stor) > 0 {
+			at.TouchedLive++
+			at.LiveAddrs = append(at.LiveAddrs, i)
+		}
+	}
+	w.Counts["failed_block_attempt_reverted"]++
+	return at, nil
 }
 
 // CommitEmpty commits a block that changes no account (not even the counter account): AccountsDB.Commit with nothing
